@@ -129,7 +129,7 @@ Print Assumptions C05_client_example.
    The result is RPanic, RParseFail or RStep state' lines (the raw lines written, in order).
    RInv = Inv of the tracked state; conn_up = Client.conn is non-nil (as on the path from the
    socket).  Proofs: Proofs/ReactProofs.v, Proofs/ReactWire.v. *)
-Require React ReactProofs ReactWire.
+Require React ReactProofs ReactWire Split SplitProofs.
 
 (* no byte string makes the client panic: the reaction is a step or the parse failure *)
 Theorem C05_bytes_total : forall cfg rs line, ReactProofs.RInv rs -> ReactProofs.conn_up cfg ->
@@ -181,6 +181,43 @@ Theorem C05_bytes_ping : forall cfg rs line w, React.rs_closed rs = false ->
     Event.parse_event l = Ok (Some (Event.mkWEvent None None PingNick.s_PONG [last (Event.we_params w) []])).
 Proof. exact ReactWire.react_ping. Qed.
 Print Assumptions C05_bytes_ping.
+
+(* the line limit: every line of a reaction belongs to an event handed to Send / write (same
+   command, no tags, no source; PRIVMSG / NOTICE only through Client.Send); if that event is a
+   PRIVMSG / NOTICE - the CTCP replies, text chosen by the requester - and its command and
+   target (plus the CTCP frame) fit into MaxEventLength of the state after the step, the line is
+   at most MaxEventLength bytes, or - only when fewer than 4 bytes remain for text - command,
+   target and one character (C11_fits / C11_send_fits) *)
+Theorem C05_bytes_privmsg_fits : forall cfg rs line rs' outs, ReactProofs.conn_up cfg ->
+  React.react cfg rs line = React.RStep rs' outs ->
+  Forall (fun l =>
+    exists o, ReactWire.plain_out o /\ ReactWire.line_of (React.message_tags_on (Cap.st_enabled (ClientStep.cs_cap (React.rs_client rs')))) o l /\
+      (Split.is_msg_cmd (Event.we_cmd (ReactWire.wout_event o)) = true ->
+       (SplitProofs.cmd_target_len (React.to_sevent (ReactWire.wout_event o)) <= Split.max_event_length (ClientStep.cs_state (React.rs_client rs')))%Z ->
+       ReactWire.fits_limit (Split.max_event_length (ClientStep.cs_state (React.rs_client rs')))
+                            (SplitProofs.cmd_target_len (React.to_sevent (ReactWire.wout_event o))) l)) outs.
+Proof. exact ReactWire.react_privmsg_fits. Qed.
+Print Assumptions C05_bytes_privmsg_fits.
+
+(* ... which is about something: a CTCP PING with 720 bytes of text is answered in two NOTICE
+   lines of 392 and 368 bytes (MaxEventLength = 395) *)
+Theorem C05_bytes_fits_example :
+  exists rs' outs, React.react ReactWire.ex_cfg (React.react_init StsState.sts_init) ReactWire.ex_long_ping = React.RStep rs' outs /\
+    Split.max_event_length (ClientStep.cs_state (React.rs_client rs')) = 395%Z /\
+    List.map (@length N) outs = [392; 368]%nat /\
+    Forall (fun l => prefixb (bs "NOTICE alice :" ++ [1] ++ bs "PING lorem") l = true) outs.
+Proof. exact ReactWire.react_fits_example. Qed.
+Print Assumptions C05_bytes_fits_example.
+
+(* one line, one source of output: for every event at most ONE stage of the reaction (state
+   handlers / SASL / CAP / CTCP stage / collision handler) writes anything, so the order of the
+   lines of one reaction is always fixed by one piece of sequential code although the handlers
+   of an event run concurrently *)
+Theorem C05_bytes_single_source : forall cfg cs e cs' couts nouts,
+  ClientStep.client_step (React.rc_client cfg) cs e = Ok (cs', couts) ->
+  React.collide_stage cfg (ClientStep.cs_state cs) e = Ok nouts -> ReactWire.source_of couts nouts.
+Proof. exact ReactWire.react_single_source. Qed.
+Print Assumptions C05_bytes_single_source.
 
 (* non-vacuity: a ten-line raw session (001, 005, JOIN, 353, MODE, CTCP VERSION, PING, NICK,
    KICK, a NUL byte) with what the client writes for each line and how the session ends *)
